@@ -62,9 +62,28 @@ def random_text(rng, names):
     return q
 
 
-GOOD = {2: "[]", 3: '"s"', 4: "1", 5: "1", 6: "1", 7: "1", 8: "1"}
-WRONG = {2: ['"s"', "1", '{"a": 1}', "true"], 3: ["1", "[]", "true", '{"a": 1}'],
-         4: ['"s"', "[]", '{"a": 1}'], 5: ['"s"', "[]", "1", "true"]}
+# every kind of value a query text can put into a top-level argument position, as a literal
+LITERALS = [("[]", []), ('"s"', "s"), ("1", 1), ('{"a": 1}', {"a": 1}), ("true", True)]
+
+
+def good_literal(d):
+    """A literal of the declared type d (Impl.declared_type); "1" where nothing is declared or no
+    literal has the type (float)."""
+    if d[0] == "cls":
+        for t, v in LITERALS:
+            if isinstance(v, d[1]):
+                return t
+    return "1"
+
+
+def wrong_literals(d):
+    """What the statement calls a wrong top-level argument type, decided by the DECLARED type of the
+    parameter: every literal whose value is not an instance of the declared class (isinstance, so
+    `true` is an int).  Nothing for a parameter without a declared class and for one with a default
+    (the decorator's stated condition excludes defaults; recorded as declared_not_checked)."""
+    if d[0] != "cls":
+        return []
+    return [t for t, v in LITERALS if not isinstance(v, d[1])]
 
 
 def class_stream(impl):
@@ -93,22 +112,26 @@ def class_stream(impl):
               "RETURN = NOP()"]:
         yield "unknown-function", t, "InterpretError"
     for name, kinds, body in impl.table:
+        decl = [d for k, d in zip(kinds, impl.decl[name]) if k not in (0, 1)]
         user = [k for k in kinds if k not in (0, 1)]
         required = len([k for k in user if k not in (7, 8)])
         maxn = None if 8 in user else len(user)
+        good = [good_literal(d) for d in decl]
         for n in range(0, len(user) + 3):
             if n >= required and (maxn is None or n <= maxn):
                 continue
-            args = [GOOD[user[i]] if i < len(user) else "1" for i in range(n)]
+            args = [good[i] if i < len(user) else "1" for i in range(n)]
             yield "wrong-count", f"RETURN = {name}({', '.join(args)})", "InterpretError"
-        for i, k in enumerate(user):
-            if k not in WRONG:
-                continue
+        for i, d in enumerate(decl):
             for n in range(i + 1, len(user) + 2):
-                for w in WRONG[k]:
-                    args = [GOOD[user[j]] if j < len(user) else "1" for j in range(n)]
+                for w in wrong_literals(d):
+                    args = [good[j] if j < len(user) else "1" for j in range(n)]
                     args[i] = w
                     yield "wrong-type", f"RETURN = {name}({', '.join(args)})", "FunctionError"
+                    # the same wrong value arriving through a variable / from a call
+                    if n == len(user):
+                        yield "wrong-type", f"v = {w}; RETURN = {name}({', '.join(args[:i] + ['v'] + args[i + 1:])})", \
+                            "FunctionError"
     for t in ['RETURN = query_bucket("nope")', 'RETURN = query_bucket_eventcount("")',
               'RETURN = echo(query_bucket("b2"))']:
         yield "unknown-bucket", t, "FunctionError"
@@ -144,6 +167,115 @@ def non_ascii_stream(rng, n):
         yield "RETURN=" + "".join(rng.choice(OPAQUE_NON_ASCII + list('()[]",1a ')) for _ in range(k))
 
 
+QUOTES = "\"'"
+# where a string literal can stand: statement value, list entry, dict key, dict value, call argument
+LITERAL_CONTEXTS = ['RETURN = %s;', 'RETURN = [%s];', 'RETURN = [1, %s, 2];', 'RETURN = {%s: 1};', 'RETURN = {"k": %s};',
+                    'RETURN = echo(%s);', 'RETURN = echo(1, %s, [%s]);', 'RETURN = nop(%s);', 'x = %s; RETURN = x;']
+# what may follow a backslash that starts a multi-character escape in other notations (hex / unicode
+# / named / octal / control): complete, truncated, and with a character that does not belong
+ESCAPE_HEADS = ["x", "u", "U", "N", "0", "1", "7", "8", "o", "c", "{"]
+ESCAPE_TAILS = ["", "4", "41", "4g", "g", "zz", "004", "0041", "00e9", "d800", "12", "wxyz", "zzzz", "0000004", "00000041",
+                "0010ffff", "00110000", "ffffffff", "Uzzzz", "{DIGIT ONE}", "{nope}", "{", "{}", "}", "{DIGIT ONE",
+                "101", "400", "777", "8", "x", "\\"]
+# what may follow a character that introduces a directive in a formatting / templating / pattern
+# notation (percent, brace, dollar, ampersand, ...): nothing, itself, a conversion, a name in brackets
+DIRECTIVE_TAILS = ["", None, "s", "0", "{k}", "(k)s", "<k>", " "]
+
+
+def literal_expectation(q, body):
+    """By construction: the token scanner closes a literal at the first quote character of its kind
+    that does not directly follow a backslash; with none of those inside, no ';' (statement
+    separator) and no backslash last, q+body+q is one well-formed literal and every context above
+    is a well-formed program -> a value ("nop(...)" -> wrong count).  Otherwise no expectation
+    beyond the statement's outcome family."""
+    if ";" in body or body.endswith("\\"):
+        return None
+    for i, c in enumerate(body):
+        if c == q and (i == 0 or body[i - 1] != "\\"):
+            return None
+    return "value"
+
+
+def escape_stream(quick):
+    """String literals whose content would mean something in another notation; here every character
+    but the quote after a backslash stands for itself.  Both kinds of quote; in every position a
+    literal can stand in (quick: the statement value plus positions in rotation)."""
+    nctx = len(LITERAL_CONTEXTS)
+    k = 0
+    for q in QUOTES:
+        # backslash followed by every ASCII character
+        for c in range(128):
+            ch = chr(c)
+            for body in ("\\" + ch, "\\" + ch + "\\" + ch + " \\" + ch, "ab\\" + ch + "cd\\" + ch + "ef"):
+                yield q, body, LITERAL_CONTEXTS[0]
+            for j in range(nctx):
+                if j == 0 or not quick or (c + j) % 3 == 0:
+                    yield q, "a\\" + ch + "b", LITERAL_CONTEXTS[j]
+        # backslash + escape head + every tail
+        for h in ESCAPE_HEADS:
+            for t in ESCAPE_TAILS:
+                k += 1
+                for j in range(nctx):
+                    if j == 0 or not quick or j == 1 + k % (nctx - 1):
+                        yield q, "\\" + h + t, LITERAL_CONTEXTS[j]
+                if not quick or k % 2:
+                    yield q, "p\\" + h + t + " q", LITERAL_CONTEXTS[0]
+        # every ASCII character as the introducer of a directive, without a backslash
+        for c in range(128):
+            ch = chr(c)
+            for t in DIRECTIVE_TAILS:
+                k += 1
+                body = ch + (ch if t is None else t)
+                if not quick or k % 2:
+                    yield q, body, LITERAL_CONTEXTS[0]
+                if not quick or not k % 2:
+                    yield q, "a " + body + " b" + ch, LITERAL_CONTEXTS[k % nctx]
+
+
+def random_literal(rng):
+    """A string literal over all of ASCII: plain characters (the quote, ';', '=', brackets, control
+    characters included), backslash + any ASCII character, escape heads with random tails, a few
+    non-ASCII symbols; sometimes left unterminated."""
+    q = rng.choice(QUOTES)
+    parts = []
+    for _ in range(rng.randrange(0, 7)):
+        r = rng.random()
+        if r < 0.35:
+            parts.append("\\" + chr(rng.randrange(128)))
+        elif r < 0.55:
+            parts.append("\\" + rng.choice(ESCAPE_HEADS)
+                         + "".join(rng.choice("0123456789abcdefABCDEFgz{} ") for _ in range(rng.randrange(0, 9))))
+        elif r < 0.60:
+            parts.append(rng.choice(OPAQUE_NON_ASCII))
+        elif r < 0.70:
+            parts.append(rng.choice("%{}$&#@~^`<>") + rng.choice([t for t in DIRECTIVE_TAILS if t is not None]))
+        elif r < 0.75:
+            parts.append("\\" + q)
+        else:
+            parts.append(chr(rng.randrange(128)))
+    body = "".join(parts)
+    return q, body, (q if rng.random() < 0.9 else "")
+
+
+def random_literal_text(rng):
+    shape = rng.randrange(5)
+    n = rng.randrange(1, 3) if shape == 0 else rng.randrange(1, 4)
+    lits = [random_literal(rng) for _ in range(n)]
+    want = "value" if all(close and literal_expectation(q, body) for q, body, close in lits) else None
+    toks = [q + body + close for q, body, close in lits]
+    if shape == 0:
+        text = "RETURN = " + toks[0] if n == 1 else "x = " + toks[1] + "; RETURN = " + toks[0]
+    elif shape == 1:
+        text = "RETURN = [" + ", ".join(toks) + "]"
+    elif shape == 2:
+        text = "RETURN = echo(" + ", ".join(toks) + ")"
+    elif shape == 3:
+        text = "RETURN = {" + ", ".join(t + ": " + t for t in toks) + "}"
+    else:
+        text = "RETURN = echo({" + toks[0] + ": [" + ", ".join(toks[1:]) + "]})"
+    return text, want
+
+
 FAMILY = ("ParseError", "InterpretError", "FunctionError")
 
 
@@ -171,7 +303,8 @@ def main(argv=None):
     ck.prove(extra_targets=["Bridge/BridgeQuery.v"],
              gen_kernels=["query_header", "QString.check", "QInteger.check", "QFunction.check", "QDict.check",
                           "QList.check", "QVariable.check", "qtypes", "_parse_token", "parse_methods", "parse",
-                          "create_namespace", "get_return", "query_footer"])  # tie B: translate/k_query.py
+                          "create_namespace", "get_return", "_verify_variable_is_type", "q2_typecheck",
+                          "q2_function", "interpreter_text", "query_footer"])  # tie B: translate/k_query.py
     have_driver = ck.driver()
 
     quick = ck.tier == "quick"
@@ -189,6 +322,15 @@ def main(argv=None):
         cases.append(("non-ascii", t, None))
     for _ in range(6000 if quick else 400000):
         cases.append(("random", random_text(ck.rng, names), None))
+    for q, body, ctx in escape_stream(quick):
+        lit = q + body + q
+        want = literal_expectation(q, body)
+        if want and ctx.startswith("RETURN = nop("):
+            want = "InterpretError"
+        cases.append(("string-escape", ctx.replace("%s", lit), want))
+    for _ in range(2000 if quick else 150000):
+        text, want = random_literal_text(ck.rng)
+        cases.append(("random-literal", text, want))
 
     wire, expect = [], []
     seen = set()
